@@ -119,6 +119,11 @@ fn run_check(id: &str, tier: Tier) -> i32 {
                 "hash-map iteration order inside the library fixed by the entropy seed (VERIF_SEED)".into(),
             ];
             seqx::explore(&mut c, id, "seqx");
+            if id == "C07" {
+                // one leaf of more than 2^16 entries filled and read by a single write transaction
+                c.assumptions.push(format!("plus one write transaction that puts {} entries into a fresh bucket and reads around slot numbers 2^7, 2^8, 2^15, 2^16 before it commits (coverage.wide_leaf.*)", enumx::WIDE_N));
+                enumx::run_wide_check(&mut c);
+            }
             if id == "C03" {
                 // threaded supplement: a reader that begins inside another thread's commit
                 c.assumptions.push("threaded supplement (coverage.threaded.*): one writer thread running chains of three commits against 1-2 reader threads under the controlled scheduler, all schedules up to two preemptions; scheduling points as in C04".into());
